@@ -144,7 +144,21 @@ def is_peps(v):
     return isinstance(v, fpeps.Peps)
 
 
-def pick_peps(g):
+def max_bond(psi):
+    try:
+        return max(psi.get_bond_dimensions().values() or [1])
+    except Exception:  # noqa: BLE001
+        return 1
+
+
+def pick_peps(g, max_D=None):
+    if max_D is not None:
+        c = [s for s, v in g.task.slots.items() if is_peps(v) and g.task.shadows.get(s) is not None and max_bond(v) <= max_D]
+        return g.rng.choice(c[-3:]) if c else None
+    return _pick_peps(g)
+
+
+def _pick_peps(g):
     c = [s for s, v in g.task.slots.items() if is_peps(v) and g.task.shadows.get(s) is not None]
     if not c:
         return None
@@ -234,7 +248,7 @@ class PGate(e1.Op):
     def gen(self, g):
         rng, t = g.rng, g.task
         sp = t.space
-        psi = pick_peps(g)
+        psi = pick_peps(g, max_D=32)       # a gate multiplies the bond dimension by up to d^2: keep contractions (to_tensor, environments) affordable
         if psi is None:
             return None
         f = sp.family
@@ -495,11 +509,12 @@ class PAdd(e1.Op):
     name = "p_add"
 
     def gen(self, g):
-        a = pick_peps(g)
+        a = pick_peps(g, max_D=16)
         if a is None:
             return None
         sa = g.sh(a)
-        c = [s for s, v in g.task.slots.items() if is_peps(v) and g.task.shadows.get(s) is not None and g.task.shadows[s].anc_t == sa.anc_t and g.task.shadows[s].purified == sa.purified]
+        c = [s for s, v in g.task.slots.items() if is_peps(v) and g.task.shadows.get(s) is not None and g.task.shadows[s].anc_t == sa.anc_t and g.task.shadows[s].purified == sa.purified
+             and max_bond(v) <= 16]
         b = g.rng.choice(c)
         amps = [round(g.rng.uniform(-2, 2), 3), round(g.rng.uniform(-2, 2), 3)]
         return {"op": "p_add", "in": [a, b], "args": {"amps": amps, "form": g.rng.choice(["add", "plus"])}}
@@ -762,7 +777,7 @@ class PEnv(e1.Op):
 
     def gen(self, g):
         rng, t = g.rng, g.task
-        psi = pick_peps(g)
+        psi = pick_peps(g, max_D=16)         # exact environments cost D^4..D^8
         if psi is None:
             return None
         kinds = ["bmps", "ctm", "ctm"]
@@ -1091,7 +1106,7 @@ class PEvolve(e1.Op):
     def gen(self, g):
         rng, t = g.rng, g.task
         sp = t.space
-        psi = pick_peps(g)
+        psi = pick_peps(g, max_D=8)          # the bond metric is a (D^2 x D^2) eigenproblem: histories that piled up gates on one bond are left alone
         if psi is None or t.N < 2:
             return None
         rec = None
@@ -1176,7 +1191,7 @@ class PMetric(e1.Op):
 
     def gen(self, g):
         rng, t = g.rng, g.task
-        psi = pick_peps(g)
+        psi = pick_peps(g, max_D=8)
         if psi is None or t.N < 2:
             return None
         bonds = [[list(b.site0), list(b.site1)] for b in t.geometry.bonds()]
